@@ -207,3 +207,87 @@ func Count(n ast.Node) int {
 	}
 	return c
 }
+
+// DumpCanon renders a node like Dump but with the fields of every node sorted by name and
+// without the Kind field, the canonical form shared with the model parser's Node.Dump.
+func DumpCanon(n interface{}, loc bool) string {
+	var b strings.Builder
+	dumpCanon(&b, reflect.ValueOf(n), loc)
+	return b.String()
+}
+
+func dumpCanon(b *strings.Builder, v reflect.Value, loc bool) {
+	if !v.IsValid() {
+		b.WriteString("nil")
+		return
+	}
+	switch v.Kind() {
+	case reflect.Interface, reflect.Ptr:
+		if v.IsNil() {
+			b.WriteString("nil")
+			return
+		}
+		dumpCanon(b, v.Elem(), loc)
+	case reflect.Struct:
+		t := v.Type()
+		b.WriteString("(" + t.Name())
+		type fld struct {
+			name string
+			v    reflect.Value
+		}
+		var fs []fld
+		for i := 0; i < v.NumField(); i++ {
+			f := t.Field(i)
+			if f.PkgPath != "" || f.Name == "Kind" {
+				continue
+			}
+			fv := v.Field(i)
+			if f.Name == "Loc" {
+				if loc {
+					if fv.IsNil() {
+						b.WriteString(" @nil")
+					} else {
+						l := fv.Interface().(*ast.Location)
+						fmt.Fprintf(b, " @%d:%d", l.Start, l.End)
+					}
+				}
+				continue
+			}
+			switch fv.Kind() {
+			case reflect.Ptr, reflect.Interface, reflect.Slice, reflect.Map:
+				if fv.IsNil() || (fv.Kind() == reflect.Slice && fv.Len() == 0) {
+					continue
+				}
+				if fv.Kind() == reflect.Interface && fv.Elem().Kind() == reflect.Ptr && fv.Elem().IsNil() {
+					continue
+				}
+			case reflect.String:
+				if fv.Len() == 0 && f.Name != "Value" {
+					continue
+				}
+			}
+			fs = append(fs, fld{f.Name, fv})
+		}
+		sort.Slice(fs, func(i, j int) bool { return fs[i].name < fs[j].name })
+		for _, f := range fs {
+			b.WriteString(" " + f.name + ":")
+			dumpCanon(b, f.v, loc)
+		}
+		b.WriteString(")")
+	case reflect.Slice:
+		b.WriteString("[")
+		for i := 0; i < v.Len(); i++ {
+			if i > 0 {
+				b.WriteString(" ")
+			}
+			dumpCanon(b, v.Index(i), loc)
+		}
+		b.WriteString("]")
+	case reflect.String:
+		b.WriteString(strconv.Quote(v.String()))
+	case reflect.Bool:
+		b.WriteString(strconv.FormatBool(v.Bool()))
+	default:
+		fmt.Fprintf(b, "%v", v.Interface())
+	}
+}
